@@ -355,6 +355,68 @@ for _m in (1, 2, 3, 4):
     mk_zmk_unit(_m)
 
 
+# any number of components: loop invariant over the real `for key_part in key_parts` loop
+KPART = z3.Function('KEYPART_CHAR', z3.IntSort(), z3.IntSort(), z3.BitVecSort(8))
+XFOLD = z3.Function('XOR_OF_FIRST', z3.IntSort(), z3.BitVecSort(128))
+
+
+def key_part(E, j):
+    """component j: 32 hex digits (upper or lower case)"""
+    els = [KPART(j, z3.IntVal(k)) for k in range(32)]
+    for c in els:
+        E.fact(z3.Or(z3.And(z3.UGE(c, 48), z3.ULE(c, 57)), z3.And(z3.UGE(c, 97), z3.ULE(c, 102)), z3.And(z3.UGE(c, 65), z3.ULE(c, 70))))
+    return seq_items('str', els)
+
+
+def hexnib_any(c):
+    """value of a hex digit character of either case"""
+    return z3.If(z3.ULE(c, 57), z3.Extract(3, 0, c - 48), z3.If(z3.ULE(c, 70), z3.Extract(3, 0, c - 55), z3.Extract(3, 0, c - 87)))
+
+
+def hex32(x):
+    return seq_items('str', [BV.nibble_char(z3.Extract(127 - 4 * k, 124 - 4 * k, x)) for k in range(32)])
+
+
+class KeyPartsLoop:
+    """after i components p1 is the 32 lowercase hex digits of XOR_OF_FIRST(i), where
+    XOR_OF_FIRST(0) = 0 and XOR_OF_FIRST(i+1) = XOR_OF_FIRST(i) xor component i"""
+    ghosts = []
+
+    def entry(self, ctx):
+        return {}
+
+    def step(self, ctx, g):
+        return {}
+
+    def side(self, ctx, g):
+        return []
+
+    def facts(self, ctx, g):
+        i = g['i']
+        part = key_part(ctx.E, i)
+        return [XFOLD(0) == z3.BitVecVal(0, 128), XFOLD(i + 1) == XFOLD(i) ^ cat([hexnib_any(c) for c in part.items])]
+
+    def state(self, ctx, g):
+        return {'p1': hex32(XFOLD(g['i']))}
+
+
+@unit('get_zone_master_key/any-number-of-components', props=['C14'], functions=[K + 'get_zone_master_key', K + 'calculate_kcv'])
+def u_zmk_any(E):
+    n = E.fresh_int('n_parts')
+    E.assume(n >= 0)
+    E.fact(XFOLD(0) == z3.BitVecVal(0, 128))
+    parts = VSeq('list', n, lambda j: key_part(E, I(j)))   # *key_parts: immutable, iterated once (list-kind functional sequence)
+    E.loop_specs[(K + 'get_zone_master_key', 0)] = KeyPartsLoop()
+    out = E.call(K + 'get_zone_master_key', __varargs__=parts)
+    ok = isinstance(out, VTuple) and len(out.items) == 2
+    E.prove('get_zone_master_key/returns-pair[any number]', z3.BoolVal(ok), 'P')
+    if not ok:
+        return
+    x = XFOLD(n)
+    expect_str(E, 'get_zone_master_key/key=XOR-of-all-components[any number]', out.items[0], hex32(x).items)
+    expect_str(E, 'get_zone_master_key/kcv-of-combined-key[any number]', out.items[1], kcv_chars(BV.norm_key('TripleDES', x), 6))
+
+
 @unit('get_enc_zone_master_key+encrypt_key/post', props=['C14'], functions=[K + 'get_enc_zone_master_key', K + 'encrypt_key', K + 'get_zone_master_key'])
 def u_enc_zmk(E):
     for mk_chars in (32, 48):
